@@ -132,8 +132,11 @@ pub fn gen_asm(w: &mut impl Write, thorough: bool, seed: u64) {
     let imm64: Vec<i64> = vec![0, 1, -1, 0x7fff_ffff, 0x8000_0000, 0xffff_ffff, 0x1_0000_0000, 0x1234_5678_9abc_def0, i64::MAX, i64::MIN + 1, -0x8000_0000, -0x8000_0001, 0x7fff_ffff_0000_0000, -0x1_0000_0000];
     // single instructions: every mnemonic x registers 0..17 x boundary offsets/immediates x spellings
     for (name, sh) in &ms {
-        for dst in 0..18i64 { for src in [0i64, 1, 9, 10, 15, 16, 17] {
-            if !thorough && dst > 2 && src != 1 && src != 16 { continue; }
+        // register numbers: all of 0..17, then values whose low byte / low 16 or 32 bits look like a valid register
+        let big: [i64; 14] = [31, 32, 255, 256, 257, 266, 271, 272, 512, 65536, 65546, 4294967296, 4294967306, 9223372036854775807];
+        for dst in (0..18i64).chain(big.iter().copied()) { for src in [0i64, 1, 9, 10, 15, 16, 17, 256, 266, 65546, 4294967306] {
+            if !thorough && dst > 2 && dst < 18 && src != 1 && src != 16 { continue; }
+            if dst >= 18 && ![1, 256, 266].contains(&src) { continue; }
             for regform in [false, true] {
                 let off = *r.pick(&offs[..9]); let imm = if *sh == Shape::LoadImm { *r.pick(&imm64) } else { *r.pick(&imms[..7]) };
                 let t = render(&mut r, name, *sh, dst, src, off, imm, regform);
